@@ -98,7 +98,11 @@ package ovmf
 //@   ensures forall(r, Int, r != ref(buf) ==> wrLen[r] == old(wrLen)[r] && wrLog[r] == old(wrLog)[r] && rdLeft[r] == old(rdLeft)[r])
 
 // getTDHOBList serialises the hand-off block into a buffer of the TD HOB section's size.
+// Descriptors: system memory (type 0) with attributes present|initialized|tested (7) for every declared section;
+// unaccepted memory (type 7) with the same attributes plus NEEDS_EARLY_ACCEPT (0x10000000) when the range ends at or
+// below 4 GiB or early accept is not disabled.
 //@ func (*tdxFwParser).getTDHOBList
+//@   atcall appendTDHobResource requires[C05] (p0 == 0 && p1 == 7) || (p0 == 7 && p1 == 7 + ite((p2.Start + p2.Length) % 18446744073709551616 <= 4294967296 || !p.DisableEarlyAccept, 268435456, 0))
 //@   requires p != nil && p.TDHOBregion != nil
 //@   assigns p.TDHOBregion.HostBuffer
 //@   sweep[C08]
@@ -117,18 +121,27 @@ package ovmf
 //@   loop 1 invariant forall(k, 0 <= k && k < len(p.Regions) ==> p.Regions[k] != nil && fresh(p.Regions[k]))
 //@   loop 1 invariant tdHOBregionIndex != nil ==> 0 <= tdHOBregionIndex.Value && tdHOBregionIndex.Value <= rangeindex
 
+// The three extraction variants differ only in the parser flags: early accept keeps NEEDS_EARLY_ACCEPT on all
+// unaccepted memory and measures all regions; the legacy mode measures all regions without early accept above 4 GiB;
+// the default does neither.
 //@ func ExtractMaterialGuestPhysicalRegionsNoUnacceptedMemory
 //@   assigns nothing
+//@   ghostset tdxMode = 1
+//@   atcall parse requires[C05] !p0.DisableEarlyAccept && p0.MeasureAllRegions && same(p1, firmware) && same(p2, guestRAMbanks)
 //@   ensures[C08] err == nil ==> forall(k, 0 <= k && k < len(result0) ==> result0[k] != nil)
 //@   requires len(firmware) < 2147483648 && len(guestRAMbanks) < 1048576
 //@   sweep[C08]
 //@ func ExtractMaterialGuestPhysicalRegionsTDHOBBug
 //@   assigns nothing
+//@   ghostset tdxMode = 2
+//@   atcall parse requires[C05] p0.DisableEarlyAccept && p0.MeasureAllRegions && same(p1, firmware) && same(p2, guestRAMbanks)
 //@   ensures[C08] err == nil ==> forall(k, 0 <= k && k < len(result0) ==> result0[k] != nil)
 //@   requires len(firmware) < 2147483648 && len(guestRAMbanks) < 1048576
 //@   sweep[C08]
 //@ func ExtractMaterialGuestPhysicalRegions
 //@   assigns nothing
+//@   ghostset tdxMode = 3
+//@   atcall parse requires[C05] p0.DisableEarlyAccept && !p0.MeasureAllRegions && same(p1, firmware) && len(p2) == 0
 //@   ensures[C08] err == nil ==> forall(k, 0 <= k && k < len(result0) ==> result0[k] != nil)
 //@   requires len(firmware) < 2147483648
 //@   sweep[C08]
